@@ -190,12 +190,18 @@ func NodePath(n Node) string {
 // similar to an XPath but currently has no wildcarding.  For example:
 // "/if:interfaces/if:interface" and "../config".
 func FindNode(n Node, path string) (Node, error) {
-	return findNode(n, path, map[Node]bool{})
+	return findNode(n, path, map[usesKey]bool{})
+}
+
+// A usesKey is a uses statement together with the name looked for behind it.
+type usesKey struct {
+	uses Node
+	name string
 }
 
 // findNode implements FindNode.  usesSeen is the set of uses statements whose
 // grouping is being looked up, see childNode.
-func findNode(n Node, path string, usesSeen map[Node]bool) (Node, error) {
+func findNode(n Node, path string, usesSeen map[usesKey]bool) (Node, error) {
 	if path == "" {
 		return n, nil
 	}
@@ -297,15 +303,17 @@ func findNode(n Node, path string, usesSeen map[Node]bool) (Node, error) {
 // n as well as every node in all slices of Node pointers.  Names must
 // be non-ambiguous, otherwise ChildNode has a non-deterministic result.
 func ChildNode(n Node, name string) Node {
-	return childNode(n, name, map[Node]bool{})
+	return childNode(n, name, map[usesKey]bool{})
 }
 
 // childNode implements ChildNode.  A uses statement is followed by looking
 // for its grouping from the root, which leads back to the same uses statement
 // when the grouping is not a child of the root (it is defined in a submodule,
 // in another module or in an inner scope); usesSeen holds the uses statements
-// that are being followed, so that each is followed once.
-func childNode(n Node, name string, usesSeen map[Node]bool) Node {
+// that have been followed and the name that was looked for, so that each is
+// followed once per name (and not once per path that leads to it, of which
+// there are factorially many when several groupings cannot be found).
+func childNode(n Node, name string, usesSeen map[usesKey]bool) Node {
 	v := reflect.ValueOf(n).Elem()
 	t := v.Type()
 	nf := t.NumField()
@@ -337,11 +345,11 @@ Loop:
 		}
 		if parts[0] == "uses" {
 			check = func(n Node) Node {
-				if usesSeen[n] {
+				k := usesKey{n, name}
+				if usesSeen[k] {
 					return nil
 				}
-				usesSeen[n] = true
-				defer delete(usesSeen, n)
+				usesSeen[k] = true
 				uname := n.NName()
 				// unrooted uses are rooted at root
 				if !strings.HasPrefix(uname, "/") {
